@@ -6,6 +6,7 @@ Independent of the repository; checked by the Lean 4 kernel with Mathlib.
 import Mathlib.Analysis.SpecialFunctions.Complex.Arg
 import Mathlib.Analysis.SpecialFunctions.Trigonometric.Basic
 import Mathlib.Analysis.SpecialFunctions.Pow.Real
+import Mathlib.Analysis.SpecialFunctions.Trigonometric.Bounds
 
 open Real
 
@@ -52,5 +53,17 @@ theorem mul_le_abs (a b : ℝ) (h : |b| ≤ 1) : |a * b| ≤ |a| := by
   rw [abs_mul]
   calc |a| * |b| ≤ |a| * 1 := by exact mul_le_mul_of_nonneg_left h (abs_nonneg a)
     _ = |a| := by ring
+
+end Verif
+
+namespace Verif
+
+/-- T9 chord_le_arc: two points of the unit circle are no further apart than the angle between them -/
+theorem chord_le_arc (a b : ℝ) : (Real.cos a - Real.cos b) ^ 2 + (Real.sin a - Real.sin b) ^ 2 ≤ (a - b) ^ 2 := by
+  have h := Real.one_sub_sq_div_two_le_cos (x := a - b)
+  have hs := Real.cos_sub a b
+  have ha := Real.cos_sq_add_sin_sq a
+  have hb := Real.cos_sq_add_sin_sq b
+  nlinarith [h, hs, ha, hb]
 
 end Verif
